@@ -5,7 +5,7 @@ from dst.world.program import named_params
 
 class Call:
     __slots__ = ("cid", "fid", "params", "hidx", "yields", "rebinds", "awaits", "end", "end_idx", "end_key",
-                 "ret", "exc", "at_yield", "resumptions", "states", "state_at", "params_obj", "await_idx", "mu_times", "last_kind", "delegates", "caught", "bypass")
+                 "ret", "exc", "at_yield", "resumptions", "states", "state_at", "params_obj", "await_idx", "mu_times", "last_kind", "delegates", "caught", "bypass", "unstarted")
 
     def __init__(self, cid, fid, params, hidx):
         self.cid, self.fid, self.params, self.hidx = cid, fid, params, hidx
@@ -24,6 +24,7 @@ class Call:
         self.last_kind = "E"  # kind of the last journal record this activation wrote itself
         self.delegates = []   # cids of generators this one delegated to with `yield from`
         self.caught = False   # a thrown exception was caught at a yield and the body has not yielded again yet
+        self.unstarted = None  # (callee, args, kwargs): the activation began and ended inside throw() (body never ran)
         self.bypass = set()   # journal indices of yields that were the direct result of a throw() (see merged())
         self.mu_times = _no_times
 
@@ -97,7 +98,12 @@ def _parse_journal(J):
             if t == "Y":
                 bypass_for[idx] = in_throw
                 in_throw = None
-        if t == "E":
+        if t == "EU":
+            c = Call(idx, None, {}, rec[1])
+            c.unstarted = rec[2]
+            calls[idx] = c
+            by_handle[rec[1]] = c
+        elif t == "E":
             c = Call(rec[1], rec[2], rec[3], rec[4])
             calls[rec[1]] = c
             if rec[4] is not None:
@@ -140,7 +146,7 @@ def _parse_journal(J):
                 calls[rec[4]].last_kind = "XH"
             c = by_handle.get(rec[1])
             if c is not None and c.end is None:
-                c.end, c.end_idx, c.end_key, c.exc, c.at_yield = "X", idx, idx - 0.5, rec[2], bool(rec[3])
+                c.end, c.end_idx, c.end_key, c.exc, c.at_yield = "X", idx, idx - 0.5, rec[2], bool(rec[3]) and c.unstarted is None
                 order.append(c)
         elif t in ("XC", "XD"):
             c = by_handle.get(rec[1])
@@ -211,6 +217,7 @@ def check(lp, J, logs, k, get_type, prefix="C02", sampled=False, tracer_residue=
     # caller names a way in which the tree under test can confuse them (C17: the filter's verdict cache)
     conflict_pred = traced_pred if traced_pred is not None else NO_CONFLICT
     calls, order = parse_journal(J)
+    resolve_unstarted(lp, calls, order)
     evaluated = 0
     # --- map logs to fixture functions
     flogs = []
@@ -313,6 +320,40 @@ def check(lp, J, logs, k, get_type, prefix="C02", sampled=False, tracer_residue=
         V.extend(faithful(prefix, lp, c, f, tr, gt, sampled))
     info = {"completed": len(comps), "logged": len(flogs), "foreign_logs": foreign, "matched": len(matched)}
     return V, evaluated, info, calls, comps, matched
+
+
+def resolve_unstarted(lp, calls, order):
+    """Activations that began and ended inside throw() on a generator / coroutine that had not started: which function it
+    was and what its named parameters were bound to follows from the callable and the arguments the site journaled."""
+    import inspect
+
+    for c in list(calls.values()):
+        if c.unstarted is None or c.fid is not None:
+            continue
+        callee, args, kwargs = c.unstarted
+        try:
+            func = getattr(callee, "__func__", callee)
+            while hasattr(func, "__wrapped__"):
+                func = func.__wrapped__
+            fid = lp.code.get(id(func.__code__))
+            sig = inspect.signature(callee)
+            ba = sig.bind(*args, **kwargs)
+            ba.apply_defaults()
+            params = {n: v for n, v in ba.arguments.items() if sig.parameters[n].kind not in (inspect.Parameter.VAR_POSITIONAL, inspect.Parameter.VAR_KEYWORD)}
+            recv = getattr(callee, "__self__", None)
+            if recv is not None and fid is not None:
+                first = lp.funcs[fid]["params"][0]["n"] if lp.funcs[fid]["params"] else None
+                if first in ("self", "cls"):
+                    params = dict({first: recv}, **params)
+        except Exception:
+            fid = None
+        if fid is None:
+            calls.pop(c.cid, None)
+            if c in order:
+                order.remove(c)
+            continue
+        # (as of the moment of the throw: a shared container may have been mutated in place since)
+        c.fid, c.params_obj, c.params = fid, dict(params), {n: c.state_at(v, c.cid) for n, v in params.items()}
 
 
 def twin_related(lp, fid):
